@@ -17,16 +17,6 @@ Definition ns_day  : Z := 24 * ns_hour.
 Definition ns_month : Z := 30 * ns_day.
 Definition ns_year : Z := 365 * ns_day.
 
-(* strings.TrimRight(s, "0") *)
-Fixpoint trim0r (s : string) : string :=
-  match s with
-  | EmptyString => EmptyString
-  | String c r =>
-      match trim0r r with
-      | EmptyString => if Ascii.eqb c "0" then EmptyString else String c EmptyString
-      | r' => String c r'
-      end
-  end.
 
 Definition dur_marshal (d : Z) : option string :=
   if d =? 0 then None else
